@@ -319,8 +319,9 @@ func (t Table) matchingHosts(req *http.Request, globCache *GlobCache) (hosts []s
 		//Get Compiled Glob from LRU cache
 		g, err := globCache.Get(normpat)
 		if err != nil {
-			log.Print("[Error] Compiling glob - ", err)
-			g = glob.MustCompile(normpat)
+			// a pattern which does not compile cannot match
+			log.Print("[ERROR] Compiling glob - ", err)
+			continue
 		}
 
 		if g.Match(host) {
